@@ -181,7 +181,8 @@ def oracle_regs(rng, n, R):
         # 'bspline': the field is read as cubic B-spline coefficients; affine coefficients give the affine function
         # itself (linear precision), so every analytic value holds at every evaluated point
         for mode in ("fcb", "sobel", "prewitt", "central", "forward", "backward", "bspline", None):
-            exact_everywhere = mode in ("fcb", "bspline", None)
+            # sobel / prewitt average across the other axes with replicated boundary values: exact everywhere too
+            exact_everywhere = mode in ("fcb", "sobel", "prewitt", "bspline", None)
             mname = mode or "default"
             for fn in LOSSES:
                 R.tick("null-space/values")
@@ -191,7 +192,7 @@ def oracle_regs(rng, n, R):
                     v = call(fn, aff, mode, spacing, "none", **kw)
                     second = fn in ("bending", "curvature")
                     default_sobel = second and mode is None
-                    k = 0 if (exact_everywhere and not default_sobel) else 2
+                    k = 0 if exact_everywhere else 2
                     vi = interior(v, k) if k else v
                     if second:
                         if float(vi.abs().max()) > 1e-9:
@@ -353,9 +354,6 @@ def oracle_spacing(rng, n, R):
                         va = call(fn, ua, mode, spacing, "none", **kw)
                         v1 = call(fn, ua, mode, ones, "none", **kw)
                         power = {"bending": 4, "curvature": 4, "tv": 1}.get(fn, 2)
-                        if fn == "bending" and mode in ("sobel", "prewitt", None):
-                            # zero-padded cross smoothing makes mixed derivatives non-zero at the boundary (known finding)
-                            va, v1 = interior(va, 2), interior(v1, 2)
                         if not close(va, v1 / spacing[ax] ** power, 1e-8):
                             R.fail(f"C17:{fn}_loss:{mname}:axis-spacing",
                                    f"field varying along axis {ax} only: {fn}(spacing={spacing}) != {fn}(spacing=1) / {spacing[ax]}^{power}",
